@@ -40,7 +40,7 @@ def build_glue():
 def gen_cases(rnd, n, pools):
     cases = []
     for k in range(n):
-        mode = "await" if k % 2 == 0 else "burst"
+        mode = ("await", "burst", "mixed")[k % 3]      # mixed: some calls awaited, others left pending while the next is issued
         ninst = rnd.choice([1, 1, 2, 3])
         ops = []
         live = []
@@ -85,6 +85,9 @@ def gen_cases(rnd, n, pools):
             else:
                 ops.append(dict(op="destroy", inst=i))
                 live.remove(i)
+        if mode == "mixed":
+            for o in ops:
+                o["aw"] = rnd.random() < 0.5
         cases.append(dict(case=k + 1, mode=mode, ops=ops))
     return cases
 
@@ -98,9 +101,17 @@ def run(argv):
             ncases = int(a.split("=")[1])
     t0 = time.time()
     l1 = mc_cached("MC_Binding", "MC_Binding.cfg", "mc_binding", workers=4, timeout=600)
-    log("[L1] MC_Binding states=%s ok=%s" % (l1.get("distinct"), l1.get("ok")))
+    log("[L1] MC_Binding states=%s ok=%s" % (l1.get("states"), l1.get("ok")))
     if not l1.get("ok"):
         print("binding: lemma check failed")
+        return 1
+    # the set-up queue of index.js: as written it violates Fifo (TLC must find the counterexample), without the re-pointing
+    # line it satisfies it
+    q_code = mc_cached("JsQueue", "MC_JsQueue_code.cfg", "mc_jsq_code", workers=4, timeout=600, expect_violation=True)
+    q_fix = mc_cached("JsQueue", "MC_JsQueue_noreset.cfg", "mc_jsq_fix", workers=4, timeout=600)
+    log("[L1] JsQueue as written: Fifo violated=%s; without the re-pointing line: ok=%s states=%s" % (q_code.get("violated"), q_fix.get("ok"), q_fix.get("states")))
+    if not q_code.get("violated") or not q_fix.get("ok"):
+        print("binding: the queue model no longer behaves as documented")
         return 1
     glue, repo = build_glue()
     work = os.path.join(OUT, "work", "binding_%d" % os.getpid())
@@ -151,4 +162,8 @@ def run(argv):
         log("  finding: %s %s (case line %s)" % (v["prop"], v["why"], v["line"]))
     if not res["viol"]:
         shutil.rmtree(work, ignore_errors=True)
-    return 0 if not res["viol"] else 1
+    known = {k["id"]: k for k in json.load(open(os.path.join(VERIF, "known_findings.json"))).get("binding", [])}
+    unknown = [v for v in res["viol"] if v["prop"] not in known]
+    for kid in sorted({v["prop"] for v in res["viol"] if v["prop"] in known}):
+        print("KNOWN-FINDING: property=%s %s" % (kid, known[kid]["what"][:160]))
+    return 0 if not unknown else 1
